@@ -141,6 +141,14 @@ func inStringAfter(classes []string) bool {
 	return inStr
 }
 
+// c05Among: b as one of several raw messages of a map, under the given key
+func c05Among(b []byte, key string) bool {
+	m := map[string]json.RawMessage{"b": json.RawMessage(`1`), "n": json.RawMessage(`[2]`), "y": json.RawMessage(`{"k":3}`)}
+	m[key] = b
+	_, err := json.Marshal(m)
+	return err == nil
+}
+
 type marshalerOf struct{ b []byte }
 
 func (m marshalerOf) MarshalJSON() ([]byte, error) { return m.b, nil }
@@ -163,6 +171,26 @@ var c05Consumers = []synConsumer{
 	}, true},
 	{"Marshal(map[string]RawMessage)", func(b []byte) bool {
 		_, err := json.Marshal(map[string]json.RawMessage{"a": b})
+		return err == nil
+	}, true},
+	// several entries, the one under test first, in the middle and last in key order: every entry is checked
+	{"Marshal(map[string]RawMessage, first of several)", func(b []byte) bool { return c05Among(b, "a") }, true},
+	{"Marshal(map[string]RawMessage, one of several)", func(b []byte) bool { return c05Among(b, "m") }, true},
+	{"Marshal(map[string]RawMessage, last of several)", func(b []byte) bool { return c05Among(b, "z") }, true},
+	{"Marshal([]RawMessage, one of several)", func(b []byte) bool {
+		_, err := json.Marshal([]json.RawMessage{json.RawMessage(`1`), b, json.RawMessage(`2`)})
+		return err == nil
+	}, true},
+	{"Marshal(struct{RawMessage;Marshaler;RawMessage})", func(b []byte) bool {
+		_, err := json.Marshal(struct {
+			A json.RawMessage
+			B marshalerOf
+			C json.RawMessage
+		}{b, marshalerOf{[]byte(`1`)}, json.RawMessage(`2`)})
+		return err == nil
+	}, true},
+	{"Marshal(map[string]Marshaler, first of two)", func(b []byte) bool {
+		_, err := json.Marshal(map[string]marshalerOf{"a": {b}, "b": {[]byte(`1`)}})
 		return err == nil
 	}, true},
 	{"Append(map[string]RawMessage,unsorted)", func(b []byte) bool {
